@@ -132,6 +132,14 @@ def check_tx(res, N, exons, strand, cds, f0, a, b, cs="+"):
     if lift_back(CL, a, b, cs) != inside or (inside and lib.loc_strand(CL) != M.strand_rel(strand, cs)):
         res.deviation("chunk_relative_location", dict(op="chunk_relative_location", **case), lift_back(CL, a, b, cs), inside, sig="chunk-location")
         return
+    # the chunk-relative exports are values: asked a second time, the same object gives the same dictionary / BED line / rows
+    for name, fn in (("to_dict(chunk)", lambda: T1.to_dict(chromosome_relative_coordinates=False)),
+                     ("to_bed12(chunk)", lambda: str(T1.to_bed12(chromosome_relative_coordinates=False))),
+                     ("to_gff(chunk)", lambda: [str(r) for r in T1.to_gff(chromosome_relative_coordinates=False)])):
+        oa, ob = lib.outcome(fn), lib.outcome(fn)
+        res.trans(2)
+        if oa[0] != ob[0] or (oa[0] == "ok" and oa[1] != ob[1]) or (oa[0] == "exc" and oa[1] != ob[1]):
+            res.deviation(name, dict(op=name + "-twice", **case), ob[1], oa[1], sig="chunk-export-second-time-differs")
     # the third route to a chunk view: the whole-chromosome object moved onto the chunk gives the chunk twin
     oL = lib.outcome(T0.liftover_to_parent_or_seq_chunk_parent, chunk)
     res.trans()
